@@ -495,8 +495,10 @@ namespace avel {
 
             #elif defined(AVEL_SSE2)
 
-            auto t0 = decay(lhs);
-            auto t1 = decay(rhs);
+            // Low halves must be compared as unsigned: flip their sign bits
+            auto low_sign_bits = _mm_set_epi32(0x00000000, 0x80000000, 0x00000000, 0x80000000);
+            auto t0 = _mm_xor_si128(decay(lhs), low_sign_bits);
+            auto t1 = _mm_xor_si128(decay(rhs), low_sign_bits);
 
             auto c0 = _mm_cmplt_epi32(t0, t1);
             auto c1 = _mm_cmplt_epi32(t1, t0);
